@@ -9,11 +9,12 @@ CONSTANTS
   InitStores <- ValStores
   PublishAfterUnlock = FALSE
   CreatedRevalidated = TRUE
+  DeleteHoldsLock = TRUE
   Equiv = "none"
   SubSer = FALSE
   MayCancel = FALSE
   SnapAtCommit = TRUE
   CollectLive = TRUE
 VIEW ViewNoHist
-INVARIANTS TypeOK CommitValid EffectOnce LoserCodes Converged NoCommitMissed
+INVARIANTS TypeOK CommitValid EffectOnce LoserCodes Converged NoCommitMissed EditScript
 CHECK_DEADLOCK FALSE
